@@ -320,6 +320,8 @@ where
 
         let start_states = RE_WS
             .split(declaration_parameters)
+            // Names may be separated by more than one blank.
+            .filter(|name| !name.is_empty())
             .map(|name| {
                 let off = name.as_ptr() as usize - self.src.as_ptr() as usize;
                 i = off + name.len();
@@ -1685,6 +1687,23 @@ B 'b' C 'c' D	'A'";
         for src in srcs {
             LRNonStreamingLexerDef::<DefaultLexerTypes<u8>>::from_str(src)
                 .expect_error_at_line_col(src, LexErrorKind::InvalidStartStateName, 1, 4);
+        }
+    }
+
+    #[test]
+    fn test_start_states_separated_by_blanks() {
+        let src = "%s A  B \t C\n%%\na 'a'";
+        let ast = LRNonStreamingLexerDef::<DefaultLexerTypes<u8>>::from_str(src).unwrap();
+        let names = ast
+            .iter_start_states()
+            .map(|s| s.name())
+            .collect::<Vec<_>>();
+        assert_eq!(vec!["INITIAL", "A", "B", "C"], names);
+        for st in ast.iter_start_states().skip(1) {
+            assert_eq!(
+                st.name(),
+                &src[st.name_span().start()..st.name_span().end()]
+            );
         }
     }
 
